@@ -35,6 +35,41 @@ def check(ctx: Ctx) -> None:
     # disk" (which can be a metadata file written by a commit that has not flipped the pointer yet)
     from .c10 import r2 as c10_r2, r4 as c10_r4
     c10_r4(ctx, "C02.R5")
+    r6(ctx)
+    # a multi-operation transaction becomes visible all at once: one commit point per attempt
+    from .c01 import r5 as c01_r5
+    c01_r5(ctx, "C02.R7")
+
+
+def r6(ctx: Ctx) -> None:
+    ctx.rule("C02.R6", "read APIs are stateless: no read-path method of Table stores to the handle (no memo that a rollback, a "
+             "snapshot deletion or another process can leave stale)", 1)
+    table = ctx.prog.cls("transaction.Table")
+    roots = ["row_count", "scan", "to_pandas", "scan_batches", "iter_records", "iter_pandas", "_scan_table", "_get_all_data_files",
+             "_read_datafile_table", "_iter_file_batches", "_get_current_schema", "current_snapshot", "snapshots", "snapshot_by_id",
+             "time_travel"]
+    bad = []
+    for name in roots:
+        m = table.methods.get(name)
+        if m is None:
+            continue
+        for f in [m] + list(m.nested.values()):
+            for n in ctx.cfg(f).nodes:
+                if n.kind == "stmt" and isinstance(n.ast, (ast.Assign, ast.AugAssign, ast.AnnAssign)):
+                    tg = n.ast.targets if isinstance(n.ast, ast.Assign) else [n.ast.target]
+                    for t in tg:
+                        base = t.value if isinstance(t, ast.Subscript) else t
+                        if isinstance(base, ast.Attribute) and isinstance(base.value, ast.Name) and base.value.id == "self":
+                            bad.append(f"{f.file}:{n.lineno} {name}: `{n.text[:60]}`")
+                if n.kind == "call" and isinstance(n.ast, ast.Call) and isinstance(n.ast.func, ast.Attribute) \
+                        and n.ast.func.attr in ("setdefault", "update", "append", "add", "pop", "clear", "move_to_end", "popitem") \
+                        and isinstance(n.ast.func.value, ast.Attribute) and isinstance(n.ast.func.value.value, ast.Name) \
+                        and n.ast.func.value.value.id == "self":
+                    bad.append(f"{f.file}:{n.lineno} {name}: `{n.text[:60]}`")
+    ctx.ob("C02.R6", table.methods["row_count"], "no read-path method mutates the Table handle", None, not bad,
+           "every read resolves the pointer afresh; a per-handle cache keyed by anything but the resolved metadata file itself "
+           "(e.g. last_sequence_number, which a snapshot deletion does not bump) returns a snapshot that is no longer current",
+           witness=bad[:6] or None)
 
 
 def refresh_reaching_calls(ctx: Ctx, f: FunctionInfo) -> List[Node]:
